@@ -198,7 +198,7 @@ SHARING = ["no sharing", "overrides['a'] and overrides['a.b'] are ONE dict objec
 
 def hist_params(tier):
     n = len(HIST_KINDS) - 1
-    return [P("ka", 0, n), P("kb", 0, n), P("la", 0, n), P("lb", 0, n), P("share", 0, 3), P("edit", 0, 2)]
+    return [P("ka", 0, n), P("kb", 0, n), P("la", 0, n), P("lb", 0, n), P("share", 0, 3), P("edit", 0, 3)]
 
 
 def _wreck(res, o, v):
@@ -214,14 +214,21 @@ def hist_fn(a, tier):
     n = len(HIST_KINDS)
     ko = [HIST_KINDS[pick(a["ka"], n)], HIST_KINDS[pick(a["kb"], n)]]
     kv = [HIST_KINDS[pick(a["la"], n)], HIST_KINDS[pick(a["lb"], n)]]
-    share, edit = pick(a["share"], 4), pick(a["edit"], 3)
+    share, edit = pick(a["share"], 4), pick(a["edit"], 4)
+    # a freshly loaded module for every explored path: the verdict of a path depends on its own calls only
+    import importlib
+
+    import asphalt.core._utils as _utils_mod
+
+    merge_config = importlib.reload(_utils_mod).merge_config
     original, overrides = build_arg(1, ko, [11, 12]), build_arg(1, kv, [13, 14])
     if share in (1, 3) and isinstance(overrides.get("a"), dict) and kv[1] != 0:
         overrides["a.b"] = overrides["a"]
     if share in (2, 3) and isinstance(original.get("a"), dict) and ko[1] != 0:
         original["a.b"] = original["a"]
     summary = {"original": {k: KINDS[x] for k, x in zip(KEYS, ko)}, "overrides": {k: KINDS[x] for k, x in zip(KEYS, kv)}, "sharing": SHARING[share],
-               "between_the_calls": ["the first result is consumed (emptied)", "a leaf of overrides is changed in place", "a leaf of original is changed in place"][edit]}
+               "between_the_calls": ["the first result is consumed (emptied)", "a leaf of overrides is changed in place", "a leaf of original is changed in place",
+                                     "another call with self-referential dictionaries is made and fails"][edit]}
 
     def one(label):
         o_copy, v_copy = _copy.deepcopy(original), _copy.deepcopy(overrides)
@@ -242,6 +249,13 @@ def hist_fn(a, tier):
         return bad
     if edit == 0:
         _wreck(r1, original, overrides)
+    elif edit == 3:
+        loop_o, loop_v = {"x": 1}, {"x": 2}
+        loop_o["self"], loop_v["self"] = loop_o, loop_v
+        try:
+            merge_config(loop_o, loop_v)
+        except (RecursionError, ValueError):
+            pass  # a circular configuration cannot be merged; how that is reported is not this property's business
     else:
         target = overrides if edit == 1 else original
         for d in nested_dicts(target, []):
@@ -267,7 +281,8 @@ MHIST = Harness(
     cube=lambda tier: 2,
     title="three calls on the same argument objects with the caller consuming results / editing its arguments in between; sections shared by identity",
     bound_text=lambda tier: "both arguments dicts over {'a','a.b'}, per key one of " + ", ".join(KINDS[k] for k in HIST_KINDS) + "; sharing in {" + "; ".join(SHARING)
-    + "}; between call 1 and 2: result emptied / overrides' leaves changed in place / original's leaves changed in place; result 2 emptied before call 3",
+    + "}; between call 1 and 2: result emptied / overrides' leaves changed in place / original's leaves changed in place / an unrelated call with self-referential "
+    "dictionaries that fails; result 2 emptied before call 3",
     oracle="every call's result == reference merge of the arguments AS THEY ARE at that call; arguments unchanged by every call; a section referenced twice is merged at both places",
     outside="as M",
     stubs=("none",),
